@@ -60,8 +60,50 @@ def _body(fn: ast.AST) -> list[ast.stmt]:
     if b and isinstance(b[0], ast.Expr) and isinstance(b[0].value, ast.Constant) and isinstance(b[0].value.value, str):
         b = b[1:]
     b = _renest(b)
+    _inline_adjacent_temps(b, {a.arg for a in fn.args.posonlyargs + fn.args.args + fn.args.kwonlyargs})  # type: ignore[attr-defined]
     _NESTED[id(fn)] = b
     return b
+
+
+def _inline_adjacent_temps(block: list[ast.stmt], params: set[str]) -> None:
+    """`t = e` immediately followed by the only statement that reads `t` (once), where nothing but the operations
+    enclosing that read is evaluated before it: the read is replaced by `e` (a helper written with an explaining
+    temporary is the same expression helper)."""
+    for st in block:
+        for fld in ('body', 'orelse', 'finalbody'):
+            sub = getattr(st, fld, None)
+            if isinstance(sub, list) and sub and isinstance(sub[0], ast.stmt):
+                _inline_adjacent_temps(sub, params)
+    k = 0
+    while k + 1 < len(block):
+        a, b = block[k], block[k + 1]
+        if isinstance(a, ast.Assign) and len(a.targets) == 1 and isinstance(a.targets[0], ast.Name) and a.targets[0].id not in params \
+                and isinstance(b, (ast.Return, ast.Assign, ast.Expr, ast.AugAssign)):
+            t = a.targets[0].id
+            everywhere = sum(1 for s_ in block for n in ast.walk(s_) if isinstance(n, ast.Name) and n.id == t)
+            reads = [n for n in ast.walk(b) if isinstance(n, ast.Name) and n.id == t and isinstance(n.ctx, ast.Load)]
+            if everywhere == 2 and len(reads) == 1 and not any(isinstance(n, (ast.Lambda, ast.ListComp, ast.SetComp, ast.DictComp, ast.GeneratorExp)) and any(x is reads[0] for x in ast.walk(n)) for n in ast.walk(b)):
+                # calls in b that are not ancestors of the read would be evaluated in a different order
+                anc: set[int] = set()
+
+                def mark(n: ast.AST) -> bool:
+                    hit = n is reads[0]
+                    for c in ast.iter_child_nodes(n):
+                        if mark(c):
+                            hit = True
+                    if hit:
+                        anc.add(id(n))
+                    return hit
+                mark(b)
+                if all(id(n) in anc for n in ast.walk(b) if isinstance(n, (ast.Call, ast.Await, ast.Yield, ast.YieldFrom, ast.NamedExpr))):
+                    class _R(ast.NodeTransformer):
+                        def visit_Name(self, n: ast.Name) -> ast.AST:  # noqa: N802
+                            return a.value if n is reads[0] else n
+                    block[k + 1] = _R().visit(b)
+                    del block[k]
+                    k = max(k - 1, 0)
+                    continue
+        k += 1
 
 
 def _assigned(stmts: list[ast.stmt]) -> set[str]:
@@ -386,6 +428,29 @@ def expand(prog: 'object') -> list[str]:
                         elif isinstance(st, ast.AnnAssign) and isinstance(st.value, ast.Call):
                             call, target = st.value, st.target
                         done = False
+                        # --- a statement helper called in receiver position (`helper(...).m(x)`): it is what the statement
+                        # evaluates first, so it can be bound to a fresh local on the line before
+                        if isinstance(st, (ast.Assign, ast.Expr, ast.Return, ast.AnnAssign, ast.AugAssign)) and getattr(st, 'value', None) is not None:
+                            par_, fld_, cur_ = st, 'value', st.value
+                            while True:
+                                if isinstance(cur_, ast.Call):
+                                    r0 = resolve(caller, cur_) if cur_ is not st.value else None
+                                    if r0 and r0[0] is not caller and _as_expr(_body(r0[0].node)) is None and _tail_returns_only(_body(r0[0].node)):
+                                        counter += 1
+                                        tmpn = f'{r0[0].name.lstrip("_")}__v{counter}'
+                                        setattr(par_, fld_, ast.copy_location(ast.Name(id=tmpn, ctx=ast.Load()), cur_))
+                                        blk.insert(i, ast.copy_location(ast.Assign(targets=[ast.copy_location(ast.Name(id=tmpn, ctx=ast.Store()), cur_)], value=cur_, lineno=st.lineno), st))
+                                        ast.fix_missing_locations(blk[i])
+                                        st = blk[i]
+                                        call, target = st.value, st.targets[0]
+                                        break
+                                    par_, fld_, cur_ = cur_, 'func', cur_.func
+                                elif isinstance(cur_, (ast.Attribute, ast.Subscript)):
+                                    par_, fld_, cur_ = cur_, 'value', cur_.value
+                                elif isinstance(cur_, (ast.BinOp, ast.Compare)):
+                                    par_, fld_, cur_ = cur_, 'left', cur_.left
+                                else:
+                                    break
                         # --- G shape: `for t in helper(...): BODY` over a new generator with a single `yield e`:
                         # the generator's code with BODY (after `t = e`) in place of the yield
                         if isinstance(st, (ast.For,)) and isinstance(st.iter, ast.Call) and not st.orelse and not _jumps(st.body):
